@@ -1,13 +1,15 @@
-(* C04 (part 2): SE3 — the remaining per-operation derivative lemmas (Mul w.r.t. Y, Inv, AdjXa, AdjTXa) and
-   SO3 AdjTXa.  Same statement shape as Proofs/LieJac.v:  along the perturbation curve e |-> Exp(e d) @ X
-   ([pertSE3]) the op f has, at e = 0, the derivative  T_{f X}(L d)  (group-valued f; [tanSE3]) resp.  L d
-   (algebra-valued f), with L the matrix whose transpose the modelled backward multiplies by:
-     Mul (Y)    L = Adj(X)                     mul_bwd
-     Inv        L = -Adj(X^-1)                 inv_bwd   (Y = output)
-     AdjXa (X)  L = -ad(out)   (a)  L = Adj(X) adj_bwd
-     AdjTXa (X) L = Adj(X^-1) ad(a)   (a)  L = Adj(X^-1)     adjT_bwd (repaired form)
-   Each proof = a "raw" derivative (auto_derive + field; target = the differential of the polynomial op
-   applied to the tangent T_X d) + an algebraic identity on unit quaternions. *)
+(* C04 (part 2): chain rule along arbitrary curves for the polynomial Lie-group operations; SO3 AdjTXa and the
+   remaining SE3 operations (Mul w.r.t. Y, Inv, AdjXa, AdjTXa).
+   Statement shape (as in Proofs/LieJac.v): for a curve X(e) in the group with X(0) = X and X'(0) = T_X d
+   (the tangent of e |-> Exp(e d) @ X; in particular the polynomial perturbation curve [pertSE3] itself), the op f
+   satisfies  d/de f(X(e)) |_0 = T_{f X}(L d)  (group-valued f)  resp.  L d  (algebra-valued f), with L the matrix
+   whose transpose the modelled backward multiplies the cotangent by:
+     Mul (Y)    L = Adj(X)                         mul_bwd
+     Inv        L = -Adj(X^-1)                     inv_bwd   (saved Y = output)
+     AdjXa (X)  L = -ad(out),   (a)  L = Adj(X)    adj_bwd
+     AdjTXa (X) L = Adj(X^-1) ad(a),  (a)  L = Adj(X^-1)     adjT_bwd (repaired form)
+   Each proof = chain rule (differential of the polynomial op applied to the tangent; [prim_*] by auto_derive
+   over abstract component functions) + an algebraic identity on unit quaternions. *)
 From Coq Require Import Reals Lra Psatz List Nsatz.
 From Coquelicot Require Import Coquelicot.
 Import ListNotations.
@@ -15,7 +17,6 @@ From PV Require Import Base.Num Base.RTac Model.LieGroup Model.LieExp Proofs.Lie
 Local Open Scope R_scope.
 #[local] Remove Hints NumQ NumZ : typeclass_instances.
 
-(* ---------- differentials of the two quadratic maps q |-> SO3_act q p, q |-> SO3_Adj q a in direction q' *)
 Definition dact (X X' : quatR) (p : vec3R) : vec3R :=
   let uv := vcross (qv X) p in let uv := vadd uv uv in
   let uv' := vcross (qv X') p in let uv' := vadd uv' uv' in
@@ -24,6 +25,132 @@ Definition dAdj (X X' : quatR) (a : vec3R) : vec3R :=
   let v := qv X in let w := qw X in let v' := qv X' in let w' := qw X' in
   vadd (vadd (vscale (4 * w * w') a) (vadd (vscale (2 * w') (vcross v a)) (vscale (2 * w) (vcross v' a))))
        (vadd (vscale (2 * vdot v a) v') (vscale (2 * vdot v' a) v)).
+Definition qadd (A B : quatR) : quatR := (vadd (qv A) (qv B), qw A + qw B).
+
+(* ---------- curves through 0 and their componentwise derivatives *)
+Definition dR (s : R -> R) (s' : R) : Prop := is_derive s 0 s'.
+Definition dv3 (u : R -> vec3R) (u' : vec3R) : Prop := forall i, is_derive (fun e => vc i (u e)) 0 (vc i u').
+Definition dq4 (Q : R -> quatR) (Q' : quatR) : Prop := forall i, is_derive (fun e => qc i (Q e)) 0 (qc i Q').
+
+Lemma v_eta (v : vec3R) : (vc 0 v, vc 1 v, vc 2 v) = v.
+Proof. destruct v as [[a b] c]. reflexivity. Qed.
+Lemma q_eta (q : quatR) : ((qc 0 q, qc 1 q, qc 2 q), qc 3 q) = q.
+Proof. destruct q as [[[a b] c] w]. reflexivity. Qed.
+
+Ltac use_derives := repeat match goal with
+  | H : is_derive ?f 0 ?l |- context [Derive ?g 0] => rewrite (is_derive_unique g 0 l H) end.
+Ltac der_abs := auto_derive; [repeat split; trivial; try (eexists; eassumption) | use_derives; ring].
+
+Section Prim.
+Variables (a b c w p1 p2 p3 s : R -> R) (a' b' c' w' p1' p2' p3' s' : R).
+Hypotheses (Ha : is_derive a 0 a') (Hb : is_derive b 0 b') (Hc : is_derive c 0 c') (Hw : is_derive w 0 w')
+  (H1 : is_derive p1 0 p1') (H2 : is_derive p2 0 p2') (H3 : is_derive p3 0 p3') (Hs : is_derive s 0 s').
+Lemma prim_act i :
+  is_derive (fun e => vc i (SO3_act ((a e, b e, c e), w e) (p1 e, p2 e, p3 e))) 0
+    (vc i (vadd (dact ((a 0, b 0, c 0), w 0) ((a', b', c'), w') (p1 0, p2 0, p3 0))
+                (SO3_act ((a 0, b 0, c 0), w 0) (p1', p2', p3')))).
+Proof. unfold dact, vc. lie_unfold. d3 i; der_abs. Qed.
+Lemma prim_Adj i :
+  is_derive (fun e => vc i (mvmul (SO3_Adj ((a e, b e, c e), w e)) (p1 e, p2 e, p3 e))) 0
+    (vc i (vadd (dAdj ((a 0, b 0, c 0), w 0) ((a', b', c'), w') (p1 0, p2 0, p3 0))
+                (mvmul (SO3_Adj ((a 0, b 0, c 0), w 0)) (p1', p2', p3')))).
+Proof. unfold dAdj, vc. lie_unfold. d3 i; der_abs. Qed.
+Lemma prim_cross i :
+  is_derive (fun e => vc i (vcross (a e, b e, c e) (p1 e, p2 e, p3 e))) 0
+    (vc i (vadd (vcross (a', b', c') (p1 0, p2 0, p3 0)) (vcross (a 0, b 0, c 0) (p1', p2', p3')))).
+Proof. unfold vc. lie_unfold. d3 i; der_abs. Qed.
+Lemma prim_scale i :
+  is_derive (fun e => vc i (vscale (s e) (p1 e, p2 e, p3 e))) 0
+    (vc i (vadd (vscale s' (p1 0, p2 0, p3 0)) (vscale (s 0) (p1', p2', p3')))).
+Proof. unfold vc. lie_unfold. d3 i; der_abs. Qed.
+Lemma prim_add i :
+  is_derive (fun e => vc i (vadd (a e, b e, c e) (p1 e, p2 e, p3 e))) 0 (vc i (vadd (a', b', c') (p1', p2', p3'))).
+Proof. unfold vc. lie_unfold. d3 i; der_abs. Qed.
+Lemma prim_neg i : is_derive (fun e => vc i (vneg (a e, b e, c e))) 0 (vc i (vneg (a', b', c'))).
+Proof. unfold vc. lie_unfold. d3 i; der_abs. Qed.
+Lemma prim_inv i : is_derive (fun e => qc i (SO3_inv ((a e, b e, c e), w e))) 0 (qc i (SO3_inv ((a', b', c'), w'))).
+Proof. unfold qc. lie_unfold. d4 i; der_abs. Qed.
+End Prim.
+Section Prim2.
+Variables (a b c w p q r s : R -> R) (a' b' c' w' p' q' r' s' : R).
+Hypotheses (Ha : is_derive a 0 a') (Hb : is_derive b 0 b') (Hc : is_derive c 0 c') (Hw : is_derive w 0 w')
+  (Hp : is_derive p 0 p') (Hq : is_derive q 0 q') (Hr : is_derive r 0 r') (Hs : is_derive s 0 s').
+Lemma prim_mul i :
+  is_derive (fun e => qc i (SO3_mul ((a e, b e, c e), w e) ((p e, q e, r e), s e))) 0
+    (qc i (qadd (SO3_mul ((a', b', c'), w') ((p 0, q 0, r 0), s 0)) (SO3_mul ((a 0, b 0, c 0), w 0) ((p', q', r'), s')))).
+Proof. unfold qadd, qc. lie_unfold. d4 i; der_abs. Qed.
+End Prim2.
+
+(* ---------- the same for arbitrary curves *)
+Lemma dv3_act Q Q' p p' : dq4 Q Q' -> dv3 p p' ->
+  dv3 (fun e => SO3_act (Q e) (p e)) (vadd (dact (Q 0) Q' (p 0)) (SO3_act (Q 0) p')).
+Proof.
+  intros HQ Hp i.
+  pose proof (prim_act _ _ _ _ _ _ _ _ _ _ _ _ _ _ (HQ 0%nat) (HQ 1%nat) (HQ 2%nat) (HQ 3%nat) (Hp 0%nat) (Hp 1%nat) (Hp 2%nat) i) as H.
+  cbv beta in H. rewrite !q_eta, !v_eta in H.
+  eapply is_derive_ext; [|exact H]. intros e. cbv beta. now rewrite q_eta, v_eta.
+Qed.
+Lemma dv3_Adj Q Q' p p' : dq4 Q Q' -> dv3 p p' ->
+  dv3 (fun e => mvmul (SO3_Adj (Q e)) (p e)) (vadd (dAdj (Q 0) Q' (p 0)) (mvmul (SO3_Adj (Q 0)) p')).
+Proof.
+  intros HQ Hp i.
+  pose proof (prim_Adj _ _ _ _ _ _ _ _ _ _ _ _ _ _ (HQ 0%nat) (HQ 1%nat) (HQ 2%nat) (HQ 3%nat) (Hp 0%nat) (Hp 1%nat) (Hp 2%nat) i) as H.
+  cbv beta in H. rewrite !q_eta, !v_eta in H.
+  eapply is_derive_ext; [|exact H]. intros e. cbv beta. now rewrite q_eta, v_eta.
+Qed.
+Lemma dv3_cross u u' p p' : dv3 u u' -> dv3 p p' ->
+  dv3 (fun e => vcross (u e) (p e)) (vadd (vcross u' (p 0)) (vcross (u 0) p')).
+Proof.
+  intros Hu Hp i.
+  pose proof (prim_cross _ _ _ _ _ _ _ _ _ _ _ _ (Hu 0%nat) (Hu 1%nat) (Hu 2%nat) (Hp 0%nat) (Hp 1%nat) (Hp 2%nat) i) as H.
+  cbv beta in H. rewrite !v_eta in H.
+  eapply is_derive_ext; [|exact H]. intros e. cbv beta. now rewrite !v_eta.
+Qed.
+Lemma dv3_scale s s' p p' : dR s s' -> dv3 p p' ->
+  dv3 (fun e => vscale (s e) (p e)) (vadd (vscale s' (p 0)) (vscale (s 0) p')).
+Proof.
+  intros Hs Hp i.
+  pose proof (prim_scale _ _ _ _ _ _ _ _ (Hp 0%nat) (Hp 1%nat) (Hp 2%nat) Hs i) as H.
+  cbv beta in H. rewrite !v_eta in H.
+  eapply is_derive_ext; [|exact H]. intros e. cbv beta. now rewrite !v_eta.
+Qed.
+Lemma dv3_add u u' p p' : dv3 u u' -> dv3 p p' -> dv3 (fun e => vadd (u e) (p e)) (vadd u' p').
+Proof.
+  intros Hu Hp i.
+  pose proof (prim_add _ _ _ _ _ _ _ _ _ _ _ _ (Hu 0%nat) (Hu 1%nat) (Hu 2%nat) (Hp 0%nat) (Hp 1%nat) (Hp 2%nat) i) as H.
+  cbv beta in H. rewrite !v_eta in H.
+  eapply is_derive_ext; [|exact H]. intros e. cbv beta. now rewrite !v_eta.
+Qed.
+Lemma dv3_neg u u' : dv3 u u' -> dv3 (fun e => vneg (u e)) (vneg u').
+Proof.
+  intros Hu i.
+  pose proof (prim_neg _ _ _ _ _ _ (Hu 0%nat) (Hu 1%nat) (Hu 2%nat) i) as H.
+  cbv beta in H. rewrite !v_eta in H.
+  eapply is_derive_ext; [|exact H]. intros e. cbv beta. now rewrite !v_eta.
+Qed.
+Lemma dq4_inv Q Q' : dq4 Q Q' -> dq4 (fun e => SO3_inv (Q e)) (SO3_inv Q').
+Proof.
+  intros HQ i.
+  pose proof (prim_inv _ _ _ _ _ _ _ _ (HQ 0%nat) (HQ 1%nat) (HQ 2%nat) (HQ 3%nat) i) as H.
+  cbv beta in H. rewrite !q_eta in H.
+  eapply is_derive_ext; [|exact H]. intros e. cbv beta. now rewrite !q_eta.
+Qed.
+Lemma dq4_mul A A' B B' : dq4 A A' -> dq4 B B' ->
+  dq4 (fun e => SO3_mul (A e) (B e)) (qadd (SO3_mul A' (B 0)) (SO3_mul (A 0) B')).
+Proof.
+  intros HA HB i.
+  pose proof (prim_mul _ _ _ _ _ _ _ _ _ _ _ _ _ _ _ _ (HA 0%nat) (HA 1%nat) (HA 2%nat) (HA 3%nat) (HB 0%nat) (HB 1%nat) (HB 2%nat) (HB 3%nat) i) as H.
+  cbv beta in H. rewrite !q_eta in H.
+  eapply is_derive_ext; [|exact H]. intros e. cbv beta. now rewrite !q_eta.
+Qed.
+Lemma dv3_const (u : vec3R) : dv3 (fun _ => u) vzero.
+Proof. intros i. replace (vc i vzero) with 0 by (d3 i; reflexivity). apply @is_derive_const. Qed.
+Lemma dq4_const (q : quatR) : dq4 (fun _ => q) (vzero, 0).
+Proof. intros i. replace (qc i (vzero, 0)) with 0 by (d4 i; reflexivity). apply @is_derive_const. Qed.
+Lemma dv3_ext (u v : R -> vec3R) u' v' : (forall e, u e = v e) -> u' = v' -> dv3 u u' -> dv3 v v'.
+Proof. intros E <- H i. eapply is_derive_ext; [|apply (H i)]. intros e. cbv beta. now rewrite E. Qed.
+Lemma dq4_ext (u v : R -> quatR) u' v' : (forall e, u e = v e) -> u' = v' -> dq4 u u' -> dq4 v v'.
+Proof. intros E <- H i. eapply is_derive_ext; [|apply (H i)]. intros e. cbv beta. now rewrite E. Qed.
 
 (* ---------- rotation facts on unit quaternions *)
 Lemma Adj_act (X : quatR) a : unitq X -> mvmul (SO3_Adj X) a = SO3_act X a.
@@ -51,25 +178,38 @@ Proof.
 Qed.
 Lemma mul_tan (X Y : quatR) d : unitq X -> SO3_mul X (tanSO3 d Y) = tanSO3 (mvmul (SO3_Adj X) d) (SO3_mul X Y).
 Proof. intros Hu. unfold tanSO3. now rewrite <- SO3_mul_assoc, conj_tan, SO3_mul_assoc. Qed.
+Lemma tan_mul (X Y : quatR) d : SO3_mul (tanSO3 d X) Y = tanSO3 d (SO3_mul X Y).
+Proof. unfold tanSO3. apply SO3_mul_assoc. Qed.
 Lemma skew_mmul (t : vec3R) (M : @mat3 R) (a : vec3R) : mvmul (mmul3 (skew t) M) a = vcross t (mvmul M a).
+Proof. lie_ring. Qed.
+Lemma mvmul_0 (M : @mat3 R) : mvmul M vzero = vzero.
+Proof. lie_ring. Qed.
+Lemma vadd_0_r (u : vec3R) : vadd u vzero = u.
+Proof. lie_ring. Qed.
+Lemma vadd_0_l (u : vec3R) : vadd vzero u = u.
 Proof. lie_ring. Qed.
 Lemma Adj_inv_trans (X : quatR) : SO3_Adj (SO3_inv X) = mtrans (SO3_Adj X).
 Proof. lie_ring. Qed.
 
-(* ---------- SO3 AdjTXa: L_X d = Adj(X^-1) (a x d) = AdjT(X, ad(a) d),  L_a = Adj(X^-1) *)
-Lemma SO3_adjT_dX_raw (X : quatR) a d i :
-  is_derive (fun e => vc i (SO3_AdjTXa (pertSO3 d X e) a)) 0 (vc i (dAdj (SO3_inv X) (SO3_inv (tanSO3 d X)) a)).
+(* ---------- SO3, arbitrary curves Q with Q(0) = X, Q'(0) = T_X d *)
+Lemma SO3_adjT_dX_curve (Q : R -> quatR) a d : unitq (Q 0) -> dq4 Q (tanSO3 d (Q 0)) ->
+  dv3 (fun e => SO3_AdjTXa (Q e) a) (SO3_AdjTXa (Q 0) (vcross a d)).
 Proof.
-  destruct X as [[[x y] z] w], d as [[d1 d2] d3], a as [[a1 a2] a3]. unfold pertSO3, tanSO3, exp0, dAdj, vc. lie_unfold.
-  d3 i; der_ring.
+  intros Hu HQ. pose proof (unitq_inv _ Hu) as Hi.
+  pose proof (dv3_Adj _ _ _ _ (dq4_inv _ _ HQ) (dv3_const a)) as H. cbv beta in H.
+  revert H. apply dv3_ext; [reflexivity|].
+  rewrite mvmul_0, vadd_0_r, SO3_inv_tan, dAdj_tan by assumption. unfold SO3_AdjTXa, SO3_AdjXa. rewrite !Adj_act, act_cross by assumption.
+  generalize (SO3_act (SO3_inv (Q 0)) d) (SO3_act (SO3_inv (Q 0)) a). intros u v. lie_ring.
 Qed.
+
+(* SO3 AdjTXa along the perturbation curve:  L_X d = Adj(X^-1) (a x d) = AdjT(X, ad(a) d),  L_a = Adj(X^-1) *)
+Lemma pertSO3_curve d X : dq4 (pertSO3 d X) (tanSO3 d (pertSO3 d X 0)).
+Proof. rewrite pertSO3_0. intros i. apply pertSO3_tan. Qed.
 Lemma SO3_adjT_dX (X : quatR) a d i : unitq X ->
   is_derive (fun e => vc i (SO3_AdjTXa (pertSO3 d X e) a)) 0 (vc i (SO3_AdjTXa X (vcross a d))).
 Proof.
-  intros Hu. pose proof (unitq_inv X Hu) as Hi.
-  replace (SO3_AdjTXa X (vcross a d)) with (dAdj (SO3_inv X) (SO3_inv (tanSO3 d X)) a); [apply SO3_adjT_dX_raw|].
-  rewrite SO3_inv_tan, dAdj_tan by assumption. unfold SO3_AdjTXa, SO3_AdjXa. rewrite !Adj_act, act_cross by assumption.
-  generalize (SO3_act (SO3_inv X) d) (SO3_act (SO3_inv X) a). intros u v. lie_ring.
+  intros Hu. pose proof (SO3_adjT_dX_curve (pertSO3 d X) a d) as H. rewrite pertSO3_0 in H.
+  apply H; [exact Hu | rewrite <- (pertSO3_0 d X) at 2; apply pertSO3_curve].
 Qed.
 Lemma SO3_adjT_da (X : quatR) a da i :
   is_derive (fun e => vc i (SO3_AdjTXa X (vadd a (vscale e da)))) 0 (vc i (SO3_AdjTXa X da)).
@@ -77,8 +217,10 @@ Proof.
   destruct X as [[[x y] z] w], da as [[d1 d2] d3], a as [[a1 a2] a3]. unfold vc. lie_unfold. d3 i; der_ring.
 Qed.
 
-(* ---------- se3 algebra vectors (tau, phi) *)
+
+(* ---------- se3 algebra vectors (tau, phi), SE3 curves *)
 Definition v6 := (vec3R * vec3R)%type.
+Definition v6zero : v6 := (vzero, vzero).
 Definition v6neg (a : v6) : v6 := (vneg (fst a), vneg (snd a)).
 Definition v6add (a b : v6) : v6 := (vadd (fst a) (fst b), vadd (snd a) (snd b)).
 Definition v6scale (k : R) (a : v6) : v6 := (vscale k (fst a), vscale k (snd a)).
@@ -88,41 +230,107 @@ Definition se3_ad (x y : v6) : v6 :=
 Definition p6c (i : nat) (a : v6) : R :=
   match i with 0%nat => vx (fst a) | 1%nat => vy (fst a) | 2%nat => vz (fst a) | S (S (S j)) => vc j (snd a) end.
 Ltac d6 i := destruct i as [|[|[|[|[|i]]]]].
+Definition se3zero : se3R := (vzero, (vzero, 0)).
 
+Definition dse3 (X : R -> se3R) (X' : se3R) : Prop :=
+  dv3 (fun e => fst (X e)) (fst X') /\ dq4 (fun e => snd (X e)) (snd X').
+Definition dv6 (a : R -> v6) (a' : v6) : Prop :=
+  dv3 (fun e => fst (a e)) (fst a') /\ dv3 (fun e => snd (a e)) (snd a').
+Lemma dse3_c X X' : dse3 X X' <-> forall i, is_derive (fun e => se3c i (X e)) 0 (se3c i X').
+Proof.
+  split.
+  - intros [Ht Hq] i. destruct i as [|[|[|j]]]; [apply (Ht 0%nat) | apply (Ht 1%nat) | apply (Ht 2%nat) | apply (Hq j)].
+  - intros H. split.
+    + intros i. d3 i; [apply (H 0%nat) | apply (H 1%nat) | apply (H 2%nat)].
+    + intros j. apply (H (S (S (S j)))).
+Qed.
+Lemma dv6_c a a' : dv6 a a' <-> forall i, is_derive (fun e => p6c i (a e)) 0 (p6c i a').
+Proof.
+  split.
+  - intros [Ht Hq] i. destruct i as [|[|[|j]]]; [apply (Ht 0%nat) | apply (Ht 1%nat) | apply (Ht 2%nat) | apply (Hq j)].
+  - intros H. split.
+    + intros i. d3 i; [apply (H 0%nat) | apply (H 1%nat) | apply (H 2%nat)].
+    + intros j. apply (H (S (S (S j)))).
+Qed.
+Lemma dse3_const X : dse3 (fun _ => X) se3zero.
+Proof. split; [apply dv3_const | apply dq4_const]. Qed.
+Lemma dv6_const a : dv6 (fun _ => a) v6zero.
+Proof. split; apply dv3_const. Qed.
+Lemma dv6_line a da : dv6 (fun e => v6add a (v6scale e da)) da.
+Proof.
+  apply dv6_c. intros i. destruct a as [[[a1 a2] a3] [[b1 b2] b3]], da as [[[u1 u2] u3] [[d1 d2] d3]].
+  unfold v6add, v6scale, p6c, vc. lie_unfold. d6 i; der_ring.
+Qed.
 Lemma pertSE3_0 d X : pertSE3 d X 0 = X.
 Proof.
   destruct X as [[[t1 t2] t3] [[[a b] c] w]], d as [[[u1 u2] u3] [[d1 d2] d3]].
   unfold pertSE3, exp0_se3, exp0, Jl0. lie_unfold. split_pairs; field.
 Qed.
+Lemma pertSE3_curve d X : dse3 (pertSE3 d X) (tanSE3 d (pertSE3 d X 0)).
+Proof. rewrite pertSE3_0. apply dse3_c. intros i. apply pertSE3_tan. Qed.
 
-(* ---------- Mul, second argument: L = Adj(X) *)
-Lemma SE3_mul_dY_raw (X Y : se3R) d i :
-  is_derive (fun e => se3c i (SE3_mul X (pertSE3 d Y e))) 0
-            (se3c i (SO3_act (snd X) (fst (tanSE3 d Y)), SO3_mul (snd X) (snd (tanSE3 d Y)))).
+(* ---------- chain rule for the SE3 operations *)
+Definition DSE3_mul (X X' Y Y' : se3R) : se3R :=
+  (vadd (fst X') (vadd (dact (snd X) (snd X') (fst Y)) (SO3_act (snd X) (fst Y'))),
+   qadd (SO3_mul (snd X') (snd Y)) (SO3_mul (snd X) (snd Y'))).
+Lemma dSE3_mul X X' Y Y' : dse3 X X' -> dse3 Y Y' -> dse3 (fun e => SE3_mul (X e) (Y e)) (DSE3_mul (X 0) X' (Y 0) Y').
 Proof.
-  destruct X as [[[t1 t2] t3] [[[a b] c] w]], Y as [[[s1 s2] s3] [[[p q] r] s]], d as [[[u1 u2] u3] [[d1 d2] d3]].
-  unfold pertSE3, tanSE3, tanSO3, exp0_se3, exp0, Jl0, se3c, qc. lie_unfold. d7 i; der_ring.
+  intros [HXt HXq] [HYt HYq]. split; unfold SE3_mul, DSE3_mul; cbn [fst snd].
+  - apply dv3_add; [exact HXt|]. apply (dv3_act (fun e => snd (X e)) _ (fun e => fst (Y e)) _ HXq HYt).
+  - apply (dq4_mul (fun e => snd (X e)) _ (fun e => snd (Y e)) _ HXq HYq).
 Qed.
-Lemma SE3_mul_tan (X Y : se3R) d : unitq (snd X) ->
-  (SO3_act (snd X) (fst (tanSE3 d Y)), SO3_mul (snd X) (snd (tanSE3 d Y))) = tanSE3 (SE3_AdjXa X d) (SE3_mul X Y).
+Definition DSE3_inv (X X' : se3R) : se3R :=
+  (vneg (vadd (dact (SO3_inv (snd X)) (SO3_inv (snd X')) (fst X)) (SO3_act (SO3_inv (snd X)) (fst X'))), SO3_inv (snd X')).
+Lemma dSE3_inv X X' : dse3 X X' -> dse3 (fun e => SE3_inv (X e)) (DSE3_inv (X 0) X').
 Proof.
-  intros Hu. destruct X as [t q], Y as [s r], d as [tau phi]. unfold tanSE3, SE3_AdjXa, SE3_mul. cbn [fst snd] in *.
+  intros [Ht Hq]. split; unfold SE3_inv, DSE3_inv; cbn [fst snd].
+  - apply dv3_neg. apply (dv3_act (fun e => SO3_inv (snd (X e))) _ (fun e => fst (X e)) _ (dq4_inv _ _ Hq) Ht).
+  - apply (dq4_inv _ _ Hq).
+Qed.
+Definition DSE3_Adj (X X' : se3R) (a a' : v6) : v6 :=
+  let R := SO3_Adj (snd X) in
+  let dphi := vadd (dAdj (snd X) (snd X') (snd a)) (mvmul R (snd a')) in
+  (vadd (vadd (dAdj (snd X) (snd X') (fst a)) (mvmul R (fst a')))
+        (vadd (vcross (fst X') (mvmul R (snd a))) (vcross (fst X) dphi)), dphi).
+Lemma dSE3_Adj X X' a a' : dse3 X X' -> dv6 a a' -> dv6 (fun e => SE3_AdjXa (X e) (a e)) (DSE3_Adj (X 0) X' (a 0) a').
+Proof.
+  intros [Ht Hq] [Ha1 Ha2].
+  pose proof (dv3_Adj _ _ _ _ Hq Ha1) as H1. pose proof (dv3_Adj _ _ _ _ Hq Ha2) as H2. cbv beta in H1, H2.
+  split; unfold SE3_AdjXa, DSE3_Adj; cbn [fst snd]; cbv zeta; [|exact H2].
+  pose proof (dv3_add _ _ _ _ H1 (dv3_cross (fun e => fst (X e)) _ _ _ Ht H2)) as H. cbv beta in H.
+  revert H. apply dv3_ext; [intros e; now rewrite skew_mmul | reflexivity].
+Qed.
+
+(* ---------- algebraic identities: differential at the tangent T_X d = tangent of the result at L d *)
+Lemma qadd_0_l (q : quatR) : qadd (vzero, 0) q = q.
+Proof. unfold qadd. lie_ring. Qed.
+Lemma qadd_0_r (q : quatR) : qadd q (vzero, 0) = q.
+Proof. unfold qadd. lie_ring. Qed.
+Lemma mul_0_l (q : quatR) : SO3_mul (vzero, 0) q = (vzero, 0).
+Proof. lie_ring. Qed.
+Lemma mul_0_r (q : quatR) : SO3_mul q (vzero, 0) = (vzero, 0).
+Proof. lie_ring. Qed.
+Lemma dact_0 (q : quatR) p : dact q (vzero, 0) p = vzero.
+Proof. unfold dact. lie_ring. Qed.
+Lemma dAdj_0 (q : quatR) p : dAdj q (vzero, 0) p = vzero.
+Proof. unfold dAdj. lie_ring. Qed.
+Lemma act_0 (q : quatR) : SO3_act q vzero = vzero.
+Proof. lie_ring. Qed.
+
+Lemma SE3_mul_tan_X (X Y : se3R) d : unitq (snd X) -> DSE3_mul X (tanSE3 d X) Y se3zero = tanSE3 d (SE3_mul X Y).
+Proof.
+  intros Hu. destruct X as [t q], Y as [s r], d as [tau phi]. unfold DSE3_mul, tanSE3, SE3_mul, se3zero. cbn [fst snd] in *.
+  rewrite mul_0_r, qadd_0_r, tan_mul, act_0, vadd_0_r, dact_tan by assumption.
+  apply pair_eq; [|reflexivity]. generalize (SO3_act q s). intros u. lie_ring.
+Qed.
+Lemma SE3_mul_tan_Y (X Y : se3R) d : unitq (snd X) ->
+  DSE3_mul X se3zero Y (tanSE3 d Y) = tanSE3 (SE3_AdjXa X d) (SE3_mul X Y).
+Proof.
+  intros Hu. destruct X as [t q], Y as [s r], d as [tau phi]. unfold DSE3_mul, tanSE3, SE3_AdjXa, SE3_mul, se3zero. cbn [fst snd] in *.
+  rewrite mul_0_l, qadd_0_l, dact_0, !vadd_0_l.
   apply pair_eq; [|now apply mul_tan].
   rewrite skew_mmul, !Adj_act, !act_add, act_cross by assumption.
   generalize (SO3_act q tau) (SO3_act q phi) (SO3_act q s). intros u v x. lie_ring.
-Qed.
-Lemma SE3_mul_dY (X Y : se3R) d i : unitq (snd X) ->
-  is_derive (fun e => se3c i (SE3_mul X (pertSE3 d Y e))) 0 (se3c i (tanSE3 (SE3_AdjXa X d) (SE3_mul X Y))).
-Proof. intros Hu. rewrite <- SE3_mul_tan by assumption. apply SE3_mul_dY_raw. Qed.
-
-(* ---------- Inv: L = -Adj(X^-1) *)
-Definition DSE3_inv (X T : se3R) : se3R :=
-  (vneg (vadd (dact (SO3_inv (snd X)) (SO3_inv (snd T)) (fst X)) (SO3_act (SO3_inv (snd X)) (fst T))), SO3_inv (snd T)).
-Lemma SE3_inv_d_raw (X : se3R) d i :
-  is_derive (fun e => se3c i (SE3_inv (pertSE3 d X e))) 0 (se3c i (DSE3_inv X (tanSE3 d X))).
-Proof.
-  destruct X as [[[t1 t2] t3] [[[a b] c] w]], d as [[[u1 u2] u3] [[d1 d2] d3]].
-  unfold DSE3_inv, dact, pertSE3, tanSE3, tanSO3, exp0_se3, exp0, Jl0, se3c, qc. lie_unfold. d7 i; der_ring.
 Qed.
 Lemma SE3_inv_tan (X : se3R) d : unitq (snd X) ->
   DSE3_inv X (tanSE3 d X) = tanSE3 (v6neg (SE3_AdjXa (SE3_inv X) d)) (SE3_inv X).
@@ -133,41 +341,19 @@ Proof.
   rewrite dact_tan, skew_mmul, !Adj_act, !act_add, act_cross by assumption.
   generalize (SO3_act (SO3_inv q) tau) (SO3_act (SO3_inv q) phi) (SO3_act (SO3_inv q) t). intros u v x. lie_ring.
 Qed.
-Lemma SE3_inv_d (X : se3R) d i : unitq (snd X) ->
-  is_derive (fun e => se3c i (SE3_inv (pertSE3 d X e))) 0
-            (se3c i (tanSE3 (v6neg (SE3_AdjXa (SE3_inv X) d)) (SE3_inv X))).
-Proof. intros Hu. rewrite <- SE3_inv_tan by assumption. apply SE3_inv_d_raw. Qed.
-
-(* ---------- AdjXa: out = Adj(X) a;  L_X = -ad(out),  L_a = Adj(X) *)
-Definition DSE3_Adj (X T : se3R) (a : v6) : v6 :=
-  let R := SO3_Adj (snd X) in
-  (vadd (vadd (dAdj (snd X) (snd T) (fst a)) (vcross (fst T) (mvmul R (snd a))))
-        (vcross (fst X) (dAdj (snd X) (snd T) (snd a))),
-   dAdj (snd X) (snd T) (snd a)).
-Lemma SE3_adj_dX_raw (X : se3R) a d i :
-  is_derive (fun e => p6c i (SE3_AdjXa (pertSE3 d X e) a)) 0 (p6c i (DSE3_Adj X (tanSE3 d X) a)).
-Proof.
-  destruct X as [[[t1 t2] t3] [[[x y] z] w]], d as [[[u1 u2] u3] [[d1 d2] d3]], a as [[[a1 a2] a3] [[b1 b2] b3]].
-  unfold DSE3_Adj, dAdj, pertSE3, tanSE3, tanSO3, exp0_se3, exp0, Jl0, p6c, vc. lie_unfold. d6 i; der_ring.
-Qed.
 Lemma SE3_Adj_tan (X : se3R) a d : unitq (snd X) ->
-  DSE3_Adj X (tanSE3 d X) a = v6neg (se3_ad (SE3_AdjXa X a) d).
+  DSE3_Adj X (tanSE3 d X) a v6zero = v6neg (se3_ad (SE3_AdjXa X a) d).
 Proof.
   intros Hu. destruct X as [t q], d as [tau phi], a as [ta pa].
-  unfold DSE3_Adj, tanSE3, SE3_AdjXa, se3_ad, v6neg. cbn [fst snd] in *.
-  rewrite !dAdj_tan, skew_mmul by assumption.
+  unfold DSE3_Adj, tanSE3, SE3_AdjXa, se3_ad, v6neg, v6zero. cbn [fst snd] in *. cbv zeta.
+  rewrite !dAdj_tan, skew_mmul, !mvmul_0, !vadd_0_r by assumption.
   generalize (mvmul (SO3_Adj q) ta) (mvmul (SO3_Adj q) pa). intros u v. lie_ring.
 Qed.
-Lemma SE3_adj_dX (X : se3R) a d i : unitq (snd X) ->
-  is_derive (fun e => p6c i (SE3_AdjXa (pertSE3 d X e) a)) 0 (p6c i (v6neg (se3_ad (SE3_AdjXa X a) d))).
-Proof. intros Hu. rewrite <- SE3_Adj_tan by assumption. apply SE3_adj_dX_raw. Qed.
-Lemma SE3_adj_da (X : se3R) a da i :
-  is_derive (fun e => p6c i (SE3_AdjXa X (v6add a (v6scale e da)))) 0 (p6c i (SE3_AdjXa X da)).
+Lemma SE3_Adj_lin (X : se3R) a a' : DSE3_Adj X se3zero a a' = SE3_AdjXa X a'.
 Proof.
-  destruct X as [[[t1 t2] t3] [[[x y] z] w]], da as [[[u1 u2] u3] [[d1 d2] d3]], a as [[[a1 a2] a3] [[b1 b2] b3]].
-  unfold v6add, v6scale, p6c, vc. lie_unfold. d6 i; der_ring.
+  destruct X as [t q], a as [ta pa], a' as [ta' pa']. unfold DSE3_Adj, SE3_AdjXa, se3zero. cbn [fst snd]. cbv zeta.
+  rewrite !dAdj_0, skew_mmul. generalize (SO3_Adj q). intros M. lie_ring.
 Qed.
-
 (* Adj(X) is a Lie-algebra homomorphism: Adj(X) [x, y] = [Adj(X) x, Adj(X) y] *)
 Lemma SE3_Adj_ad (X : se3R) x y : unitq (snd X) ->
   SE3_AdjXa X (se3_ad x y) = se3_ad (SE3_AdjXa X x) (SE3_AdjXa X y).
@@ -176,31 +362,73 @@ Proof.
   rewrite !skew_mmul, !Adj_act, !act_add, !act_cross by assumption.
   generalize (SO3_act q x1) (SO3_act q x2) (SO3_act q y1) (SO3_act q y2). intros a b c d. lie_ring.
 Qed.
-Lemma SE3_AdjXa_neg (X : se3R) x : SE3_AdjXa X (v6neg x) = v6neg (SE3_AdjXa X x).
-Proof. unfold v6neg. lie_ring. Qed.
 Lemma se3_ad_neg_neg (x y : v6) : v6neg (se3_ad x (v6neg y)) = se3_ad x y.
 Proof. unfold v6neg, se3_ad. lie_ring. Qed.
 
-(* ---------- AdjTXa: out = Adj(X^-1) a;  L_X = Adj(X^-1) ad(a),  L_a = Adj(X^-1) *)
-Lemma SE3_adjT_dX_raw (X : se3R) a d i :
-  is_derive (fun e => p6c i (SE3_AdjTXa (pertSE3 d X e) a)) 0
-            (p6c i (DSE3_Adj (SE3_inv X) (DSE3_inv X (tanSE3 d X)) a)).
+(* ---------- the per-operation statements along arbitrary curves *)
+Theorem SE3_mul_dX_curve (X : R -> se3R) (Y : se3R) d : unitq (snd (X 0)) -> dse3 X (tanSE3 d (X 0)) ->
+  dse3 (fun e => SE3_mul (X e) Y) (tanSE3 d (SE3_mul (X 0) Y)).
 Proof.
-  destruct X as [[[t1 t2] t3] [[[x y] z] w]], d as [[[u1 u2] u3] [[d1 d2] d3]], a as [[[a1 a2] a3] [[b1 b2] b3]].
-  unfold DSE3_Adj, DSE3_inv, dAdj, dact, pertSE3, tanSE3, tanSO3, exp0_se3, exp0, Jl0, p6c, vc. lie_unfold. d6 i; der_ring.
+  intros Hu HX. pose proof (dSE3_mul _ _ _ _ HX (dse3_const Y)) as H. cbv beta in H.
+  now rewrite SE3_mul_tan_X in H.
 Qed.
+Theorem SE3_mul_dY_curve (X : se3R) (Y : R -> se3R) d : unitq (snd X) -> dse3 Y (tanSE3 d (Y 0)) ->
+  dse3 (fun e => SE3_mul X (Y e)) (tanSE3 (SE3_AdjXa X d) (SE3_mul X (Y 0))).
+Proof.
+  intros Hu HY. pose proof (dSE3_mul _ _ _ _ (dse3_const X) HY) as H. cbv beta in H.
+  now rewrite SE3_mul_tan_Y in H.
+Qed.
+Theorem SE3_inv_curve (X : R -> se3R) d : unitq (snd (X 0)) -> dse3 X (tanSE3 d (X 0)) ->
+  dse3 (fun e => SE3_inv (X e)) (tanSE3 (v6neg (SE3_AdjXa (SE3_inv (X 0)) d)) (SE3_inv (X 0))).
+Proof. intros Hu HX. pose proof (dSE3_inv _ _ HX) as H. now rewrite SE3_inv_tan in H. Qed.
+Theorem SE3_adj_dX_curve (X : R -> se3R) a d : unitq (snd (X 0)) -> dse3 X (tanSE3 d (X 0)) ->
+  dv6 (fun e => SE3_AdjXa (X e) a) (v6neg (se3_ad (SE3_AdjXa (X 0) a) d)).
+Proof.
+  intros Hu HX. pose proof (dSE3_Adj _ _ _ _ HX (dv6_const a)) as H. cbv beta in H. now rewrite SE3_Adj_tan in H.
+Qed.
+Theorem SE3_adj_da_curve (X : se3R) (a : R -> v6) a' : dv6 a a' -> dv6 (fun e => SE3_AdjXa X (a e)) (SE3_AdjXa X a').
+Proof. intros Ha. pose proof (dSE3_Adj _ _ _ _ (dse3_const X) Ha) as H. cbv beta in H. now rewrite SE3_Adj_lin in H. Qed.
+Theorem SE3_adjT_dX_curve (X : R -> se3R) a d : unitq (snd (X 0)) -> dse3 X (tanSE3 d (X 0)) ->
+  dv6 (fun e => SE3_AdjTXa (X e) a) (SE3_AdjTXa (X 0) (se3_ad a d)).
+Proof.
+  intros Hu HX. assert (Hi : unitq (snd (SE3_inv (X 0)))) by (apply valid_SE3_inv; exact Hu).
+  pose proof (SE3_inv_curve X d Hu HX) as HI.
+  pose proof (SE3_adj_dX_curve (fun e => SE3_inv (X e)) a _ Hi HI) as H. cbv beta in H.
+  unfold SE3_AdjTXa. rewrite SE3_Adj_ad by assumption.
+  rewrite <- se3_ad_neg_neg. exact H.
+Qed.
+Theorem SE3_adjT_da_curve (X : se3R) (a : R -> v6) a' : dv6 a a' -> dv6 (fun e => SE3_AdjTXa X (a e)) (SE3_AdjTXa X a').
+Proof. intros Ha. apply (SE3_adj_da_curve (SE3_inv X) a a' Ha). Qed.
+
+(* ---------- the same along the polynomial perturbation curve e |-> Exp(e d) @ X of Proofs/LieJac.v *)
+Lemma SE3_mul_dY (X Y : se3R) d i : unitq (snd X) ->
+  is_derive (fun e => se3c i (SE3_mul X (pertSE3 d Y e))) 0 (se3c i (tanSE3 (SE3_AdjXa X d) (SE3_mul X Y))).
+Proof.
+  intros Hu. pose proof (SE3_mul_dY_curve X (pertSE3 d Y) d Hu (pertSE3_curve d Y)) as H.
+  rewrite pertSE3_0 in H. apply dse3_c. exact H.
+Qed.
+Lemma SE3_inv_d (X : se3R) d i : unitq (snd X) ->
+  is_derive (fun e => se3c i (SE3_inv (pertSE3 d X e))) 0
+            (se3c i (tanSE3 (v6neg (SE3_AdjXa (SE3_inv X) d)) (SE3_inv X))).
+Proof.
+  intros Hu. pose proof (SE3_inv_curve (pertSE3 d X) d) as H. rewrite pertSE3_0 in H.
+  apply dse3_c. apply H; [exact Hu | rewrite <- (pertSE3_0 d X) at 2; apply pertSE3_curve].
+Qed.
+Lemma SE3_adj_dX (X : se3R) a d i : unitq (snd X) ->
+  is_derive (fun e => p6c i (SE3_AdjXa (pertSE3 d X e) a)) 0 (p6c i (v6neg (se3_ad (SE3_AdjXa X a) d))).
+Proof.
+  intros Hu. pose proof (SE3_adj_dX_curve (pertSE3 d X) a d) as H. rewrite pertSE3_0 in H.
+  apply dv6_c. apply H; [exact Hu | rewrite <- (pertSE3_0 d X) at 2; apply pertSE3_curve].
+Qed.
+Lemma SE3_adj_da (X : se3R) a da i :
+  is_derive (fun e => p6c i (SE3_AdjXa X (v6add a (v6scale e da)))) 0 (p6c i (SE3_AdjXa X da)).
+Proof. apply dv6_c. apply SE3_adj_da_curve. apply dv6_line. Qed.
 Lemma SE3_adjT_dX (X : se3R) a d i : unitq (snd X) ->
   is_derive (fun e => p6c i (SE3_AdjTXa (pertSE3 d X e) a)) 0 (p6c i (SE3_AdjTXa X (se3_ad a d))).
 Proof.
-  intros Hu. assert (Hi : unitq (snd (SE3_inv X))) by (apply valid_SE3_inv; exact Hu).
-  replace (SE3_AdjTXa X (se3_ad a d)) with (DSE3_Adj (SE3_inv X) (DSE3_inv X (tanSE3 d X)) a); [apply SE3_adjT_dX_raw|].
-  rewrite SE3_inv_tan, SE3_Adj_tan by assumption. unfold SE3_AdjTXa.
-  rewrite SE3_Adj_ad by assumption. generalize (SE3_AdjXa (SE3_inv X) a) (SE3_AdjXa (SE3_inv X) d). intros u v.
-  apply se3_ad_neg_neg.
+  intros Hu. pose proof (SE3_adjT_dX_curve (pertSE3 d X) a d) as H. rewrite pertSE3_0 in H.
+  apply dv6_c. apply H; [exact Hu | rewrite <- (pertSE3_0 d X) at 2; apply pertSE3_curve].
 Qed.
 Lemma SE3_adjT_da (X : se3R) a da i :
   is_derive (fun e => p6c i (SE3_AdjTXa X (v6add a (v6scale e da)))) 0 (p6c i (SE3_AdjTXa X da)).
-Proof.
-  destruct X as [[[t1 t2] t3] [[[x y] z] w]], da as [[[u1 u2] u3] [[d1 d2] d3]], a as [[[a1 a2] a3] [[b1 b2] b3]].
-  unfold v6add, v6scale, p6c, vc. lie_unfold. d6 i; der_ring.
-Qed.
+Proof. apply dv6_c. apply SE3_adjT_da_curve. apply dv6_line. Qed.
